@@ -73,6 +73,10 @@ Definition corr_enet (c : case) : N :=
   + flag (vec_eqb (predict1 o64 w b (c_Q c)) (col0 (c_pred c))) 16.
 
 Definition corr_ols (c : case) : N :=
+  if N.testbit (c_flags c) 3 then
+    flag (vec32_eqb (predict1 B32_ops (map to32 (col0 (c_W c))) (to32 (hd 0%float (c_b c))) (map (map to32) (c_Q c)))
+                    (map to32 (col0 (c_pred c)))) 16
+  else
   flag (vec_eqb (predict1 o64 (col0 (c_W c)) (hd 0%float (c_b c)) (c_Q c)) (col0 (c_pred c))) 16.
 
 (* the stopping rule seen through the model's trace: every sweep before the last one must not have
@@ -244,6 +248,16 @@ Definition oracle_enet (c : case) : N :=
           else 0)
      else 0).
 
+(** tolerance of the exact optimality gap of an OLS fit: (2^6 eps)^2 * (k + 1) * (sum_j |a_j|^2 theta_j^2 + |y|^2)
+    over the k columns a_j of the design (the constant column included) - the square of 64 eps times a bound
+    of sum_j |a_j| |theta_j| + |y|, the scale of the backward error of a column-wise stable QR solve (calibrated:
+    the unchanged code used at most 0.03 of it over 1 873 fits of seeds 1..8 and the default seed; the normal-equations
+    variant seeded as C11-c exceeds it by factors up to 10^7).  Not part of the trusted statement: [ols_exact_ok_sound] holds
+    for any tolerance and states it. *)
+Definition ols_tau2 (f32 : bool) (A : list (list Q)) (y th : list Q) : Q :=
+  let s2 := qadd (qsum (map (fun p => qmul (qdot (fst p) (fst p)) (qmul (snd p) (snd p))) (combine A th))) (qdot y y) in
+  qmul (qmul (qpow2m (if f32 then 34%positive else 92%positive)) (inject_Z (Z.of_nat (S (length A))))) s2.
+
 Definition oracle_ols (c : case) : N :=
   let X := qrows (c_X c) in
   let cols := qcolumns X in
@@ -252,19 +266,32 @@ Definition oracle_ols (c : case) : N :=
   let y := map fq (col0 (c_Y c)) in
   let w := map fq (col0 (c_W c)) in
   let b := fq (hd 0%float (c_b c)) in
+  let f32 := N.testbit (c_flags c) 3 in
+  let fe := if f32 then 10%positive else 36%positive in
   let fs := floor_scale cols y w b in
-  let e2s := map (e2_coord 36 0%Q 0%Q 0%Q fs) cols in
-  let e2b := e2_icpt 36 n fs in
+  let e2s := map (e2_coord fe 0%Q 0%Q 0%Q fs) cols in
+  let e2b := e2_icpt fe n fs in
   let shape := Nat.eqb (length (c_W c)) p && Nat.eqb (length (c_b c)) 1%nat
                && (c_icpt c || fl_eqb (hd 1%float (c_b c)) 0%float) in
   flag shape 128
   + (if shape then
-       if (if c_icpt c then ols_ok cols y w b e2s e2b else ols_ok_noint cols y w e2s) then 0
-       else
-         let yc := map (fun v => qsub v b) y in
-         let r := qresidual cols yc w in
-         flag (forallb (fun x => x) (kkt_flags r cols (repeat 0%Q p) (repeat 0%Q p) w e2s)) 256
-         + (if c_icpt c then flag (coord_ok (qsum r) 0%Q 0%Q b e2b) 512 else 0)
+       (if (if c_icpt c then ols_ok cols y w b e2s e2b else ols_ok_noint cols y w e2s) then 0
+        else
+          let yc := map (fun v => qsub v b) y in
+          let r := qresidual cols yc w in
+          flag (forallb (fun x => x) (kkt_flags r cols (repeat 0%Q p) (repeat 0%Q p) w e2s)) 256
+          + (if c_icpt c then flag (coord_ok (qsum r) 0%Q 0%Q b e2b) 512 else 0))
+       (* the exact optimality gap: a candidate exact solution by rational elimination, verified and compared by
+          the proved-sound checker; a design that is not of full column rank has no verdict here *)
+       + (let A := if c_icpt c then cols ++ [ones n] else cols in
+          let th := if c_icpt c then w ++ [b] else w in
+          match qnormal_solve A y with
+          | None => 0
+          | Some ts =>
+              let tau2 := ols_tau2 f32 A y th in
+              flag (if c_icpt c then ols_exact_ok cols y w b (firstn p ts) (last ts 0%Q) tau2
+                    else ols_exact_ok_noint cols y w ts tau2) 8192
+          end)
      else 0).
 
 Definition oracle_mtl (c : case) : N :=
